@@ -421,6 +421,9 @@ func (fr *frame) applyContract(ct *Contract, callee *ssa.Function, sig *types.Si
 			vc.warn("contract %s ensures %q: %v", ct.Key, cl.Text, err)
 			continue
 		}
+		if hasTag(cl.Tags, "assumed") && !ct.Trusted && !ct.NoVerify {
+			vc.usedSpecs["contract:assumed postcondition of "+ct.Key+": "+cl.Text] = true
+		}
 		if g == "false" {
 			// the callee does not return (os.Exit, panic helpers)
 			st.reach = "false"
@@ -481,6 +484,8 @@ func (fr *frame) applyModSpec(m ModSpec, ctx *specCtx, st *State) {
 	case "fresh":
 	case "all":
 		fr.havocEverythingBut(st, "modifies all")
+	case "everything":
+		fr.havocEverything(st, false, "modifies everything")
 	case "heap":
 		fr.havocEverything(st, true, "modifies heap")
 	case "ghost":
